@@ -1,428 +1,45 @@
 /-
-  C06 — Memoize, Debug and Statistics never change results; Memoize bounds the work.
+  C06 — Memoize, Debug, Statistics never change results; Memoize bounds work.
 
-  Debug and Statistics: the runtime model `RT` has no input for them at all (`Opts` has no such
-  field; `debug` only guards printing in the Go code, `Statistics` only redirects the write-only
-  counters and names the no-match key) — the correspondence stream runs every case with the options
-  flipped against the same model result. What is proved here is the memoization table discipline.
-  The full statement (same results with and without Memoize) is FALSE for the unchanged code
-  (finding D7: a memo hit skips the label binding; kernel-evaluated witness at the end of this file).
-  What IS proved, for every grammar, input and depth (`C06_memoize_same_result_partial`, from
-  `Proofs/MemoSound.lean`): when the code blocks take no label arguments, Memoize(true) and Memoize(false)
-  return the same value and the same errors. The label-taking grammars are decided by the twin stream.
+  The theorems about the table itself are in `C06Base.lean` (audited with this file): memo-table soundness
+  `C06_memoize_same_result_partial` (two-run simulation), the packrat bound `C06_packrat_bound_partial`, the discipline lemmas,
+  the kernel witnesses of the findings D7 and D27. This file adds the composition with the whole-parse contract:
+
+  C06 ∘ C11: a memoized parse computes the PEG specification's result.
+
+  `C06_memoize_same_result_partial` ties Memoize(true) to Memoize(false); `C11_parse_contract` ties Memoize(false) to the
+  independent PEG semantics `Spec.run`. Composed: on the domain of the C06 theorem (pure code without label arguments, unique
+  node identifiers, no throw / recover, no left recursion, no budget) the MEMOIZED parser returns what the specification
+  prescribes - the table, its keys, the hits and their savepoints have no observable effect at all.
 -/
-import PigeonVerif.Proofs.StoreLemmas
-import PigeonVerif.Proofs.MemoSound
-import PigeonVerif.Proofs.MemoCount
+import PigeonVerif.Properties.C06Base
+import PigeonVerif.Properties.C11
 
 namespace PV
 namespace RT
 
-/-- the memo table is a map from (offset, node) -/
-theorem C06_memo_get_set (s : PState) (pt : Savepoint) (k : MemoKey) (t : MemoVal) (h : pt.pos.off = s.pt.pos.off) :
-    getMemoized (setMemoized s pt k t) k = some t := by
-  simp [getMemoized, setMemoized, h]
+theorem findRule_setMemo (E : Env) (m : Bool) (n : String) : (setMemo E m).findRule n = E.findRule n := rfl
 
-theorem C06_memo_get_set_other (s : PState) (pt : Savepoint) (k k' : MemoKey) (t : MemoVal)
-    (h : k' ≠ k ∨ pt.pos.off ≠ s.pt.pos.off) :
-    getMemoized (setMemoized s pt k t) k' = getMemoized s k' := by
-  simp only [getMemoized, setMemoized, List.find?]
-  rcases h with h | h
-  · have : ¬ (k = k') := fun e => h e.symm
-    simp [this]; rfl
-  · simp [h]; rfl
-
-/-- **C06 (a)** With Memoize off nothing is ever looked up or recorded by `parseExprWrap`. -/
-theorem C06_off_is_plain (E : Env) (h : E.opts.memoize = false) (rec : Expr → PState → Outcome)
-    (e : Expr) (s : PState) : parseExprWrap E rec e s = rec e s := by
-  unfold parseExprWrap; split
-  · rfl
-  · simp [h]
-
-/-- **C06 (b)** On a miss the expression is evaluated once and exactly its result (value, success,
-    end position) is recorded under (start offset, node). -/
-theorem C06_miss_records (E : Env) (rec : Expr → PState → Outcome) (e : Expr) (s s1 : PState)
-    (v : Val) (ok : Bool) (ho : E.flags.optimize = false) (hm : E.opts.memoize = true)
-    (hlr : topIsLR E s = false) (hmiss : getMemoized s (.expr e.id) = none)
-    (hr : rec e s = .done v ok s1) :
-    parseExprWrap E rec e s =
-      .done v ok (setMemoized s1 s.pt (.expr e.id) { v := v, b := ok, «end» := s1.pt }) := by
-  simp [parseExprWrap, ho, hm, hlr, hmiss, hr, Outcome.bind]
-
-/-- **C06 (c)** On a hit the expression is NOT evaluated again: the recorded value and success are
-    returned and the parser moves to the recorded end (each (expression, offset) pair is evaluated
-    at most once while its entry is in the table). -/
-theorem C06_hit_no_eval (E : Env) (rec : Expr → PState → Outcome) (e : Expr) (s : PState) (res : MemoVal)
-    (ho : E.flags.optimize = false) (hm : E.opts.memoize = true) (hlr : topIsLR E s = false)
-    (hhit : getMemoized s (.expr e.id) = some res) (hb : hitsOverBudget E (hit s) = false) :
-    parseExprWrap E rec e s = .done res.v res.b (restore (hit s) res.end) := by
-  simp [parseExprWrap, ho, hm, hlr, hhit, hb]
-
-/-- a hit does not evaluate anything: `exprCnt` is unchanged -/
-theorem C06_hit_exprCnt (E : Env) (rec : Expr → PState → Outcome) (e : Expr) (s s' : PState) (res : MemoVal)
-    (v : Val) (ok : Bool) (ho : E.flags.optimize = false) (hm : E.opts.memoize = true)
-    (hlr : topIsLR E s = false) (hhit : getMemoized s (.expr e.id) = some res)
-    (h : parseExprWrap E rec e s = .done v ok s') : s'.exprCnt = s.exprCnt := by
-  simp only [parseExprWrap, ho, hm, hlr, hhit] at h
-  by_cases hb : hitsOverBudget E (hit s) = true
-  · simp [hb] at h
-  · simp [hb] at h; obtain ⟨_, _, rfl⟩ := h; simp
-
-/-! ### Memoize does not change results (grammars whose blocks take no labels) -/
-
-/-- **C06 (d), partial: Memoize never changes the result.** Standard template without left-recursion support
-    (`MemoCfg`), no expression budget; node identifiers unique, no throw/recover (`Expr.Ok`, as C06 requires); code
-    blocks pure functions of text and pos that take NO label arguments, predicate blocks not looking at pos/text
-    (`PureCode`; with labels the statement is false — finding D7 —, with predicates reading pos/text too — finding D27).
-    Then, for every input: if `Parse` with Memoize(false) returns at depth `fN`, `Parse` with Memoize(true) returns at
-    every depth `fM ≥ fN` (it never needs more), with the same value and the same error list — except that when both
-    fail without any code-block error each reports one synthesized farthest-failure message, and those two messages need
-    not be equal (C06 compares success, value and code-block errors only). -/
-theorem C06_memoize_same_result_partial (E : Env) (own : Nat → Option String) (node : Nat → Option Expr)
+/-- **C06 (d'), partial — the memoized parser implements the PEG specification.** -/
+theorem C06_memoized_parse_is_peg_partial (E : Env) (own : Nat → Option String) (node : Nat → Option Expr)
     (isPred : Nat → Bool) (hc : MemoCfg E) (hp : PureCode E isPred)
     (hG : ∀ n r, E.findRule n = some r → r.expr.Ok own node isPred n)
-    (fM fN : Nat) (hle : fN ≤ fM) (v2 : Val) (errs2 : List String) (s2 : PState)
-    (h2 : parse (setMemo E false) fN = .ret v2 errs2 s2) :
-    ∃ errs1 s1, parse (setMemo E true) fM = .ret v2 errs1 s1 ∧
-      (errs1 = errs2 ∨ ∃ m1 m2, errs1 = [m1] ∧ errs2 = [m2] ∧ v2 = .nil) := by
-  have h := memo_sound hc hp hG fM fN hle
-  rw [h2] at h
-  rcases h with h | h
-  · cases h
-  · cases h1 : parse (setMemo E true) fM with
-    | oof => rw [h1] at h; exact h.elim
-    | panic p s => rw [h1] at h; exact h.elim
-    | ret v1 errs1 s1 =>
-      rw [h1] at h
-      obtain ⟨rfl, h'⟩ := h
-      exact ⟨errs1, s1, rfl, h'⟩
-
-/-- the same, for any two depths at which both parses have returned -/
-theorem C06_memoize_same_result_any_depth_partial (E : Env) (own : Nat → Option String) (node : Nat → Option Expr)
-    (isPred : Nat → Bool) (hc : MemoCfg E) (hp : PureCode E isPred)
-    (hG : ∀ n r, E.findRule n = some r → r.expr.Ok own node isPred n)
-    (fM fN : Nat) (v1 v2 : Val) (errs1 errs2 : List String) (s1 s2 : PState)
-    (h1 : parse (setMemo E true) fM = .ret v1 errs1 s1) (h2 : parse (setMemo E false) fN = .ret v2 errs2 s2) :
-    v1 = v2 ∧ (errs1 = errs2 ∨ ∃ m1 m2, errs1 = [m1] ∧ errs2 = [m2] ∧ v1 = .nil) := by
-  obtain ⟨e1, t1, h3, h4⟩ := C06_memoize_same_result_partial E own node isPred hc hp hG (max fM fN) fN
-    (Nat.le_max_right _ _) v2 errs2 s2 h2
-  have := parse_mono (setMemo E true) (Nat.le_max_left fM fN) (by rw [h1]; simp)
-  rw [h1, h3] at this
-  cases this
-  exact ⟨rfl, h4⟩
-
-/-- success and failure agree: one parse reports no error iff the other reports none -/
-theorem C06_memoize_same_success_partial (E : Env) (own : Nat → Option String) (node : Nat → Option Expr)
-    (isPred : Nat → Bool) (hc : MemoCfg E) (hp : PureCode E isPred)
-    (hG : ∀ n r, E.findRule n = some r → r.expr.Ok own node isPred n)
-    (fM fN : Nat) (v1 v2 : Val) (errs1 errs2 : List String) (s1 s2 : PState)
-    (h1 : parse (setMemo E true) fM = .ret v1 errs1 s1) (h2 : parse (setMemo E false) fN = .ret v2 errs2 s2) :
-    (errs1 = [] ↔ errs2 = []) := by
-  obtain ⟨_, h | ⟨m1, m2, e1, e2, _⟩⟩ := C06_memoize_same_result_any_depth_partial E own node isPred hc hp hG fM fN v1 v2 errs1 errs2 s1 s2 h1 h2
-  · rw [h]
-  · rw [e1, e2]; simp
-
-/-- a panic that escapes (`Recover(false)`) is the same panic; and the memoized parser never needs more depth -/
-theorem C06_memoize_same_panic_partial (E : Env) (own : Nat → Option String) (node : Nat → Option Expr)
-    (isPred : Nat → Bool) (hc : MemoCfg E) (hp : PureCode E isPred)
-    (hG : ∀ n r, E.findRule n = some r → r.expr.Ok own node isPred n)
-    (fM fN : Nat) (hle : fN ≤ fM) (p2 : PanicVal) (s2 : PState) (h2 : parse (setMemo E false) fN = .panic p2 s2) :
-    ∃ s1, parse (setMemo E true) fM = .panic p2 s1 := by
-  have h := memo_sound hc hp hG fM fN hle
-  rw [h2] at h
-  rcases h with h | h
-  · cases h
-  · cases h1 : parse (setMemo E true) fM with
-    | oof => rw [h1] at h; exact h.elim
-    | ret v errs s => rw [h1] at h; exact h.elim
-    | panic p1 s1 => rw [h1] at h; exact ⟨s1, by rw [show p1 = p2 from h]⟩
-
-/-- **the memoized parser terminates whenever the plain one does** (same hypotheses) -/
-theorem C06_memoized_terminates_if_plain_does_partial (E : Env) (own : Nat → Option String) (node : Nat → Option Expr)
-    (isPred : Nat → Bool) (hc : MemoCfg E) (hp : PureCode E isPred)
-    (hG : ∀ n r, E.findRule n = some r → r.expr.Ok own node isPred n)
-    (fN : Nat) (hN : parse (setMemo E false) fN ≠ .oof) : parse (setMemo E true) fN ≠ .oof := by
-  have h := memo_sound hc hp hG fN fN (Nat.le_refl _)
-  rcases h with h | h
-  · exact absurd h hN
-  · intro h1
-    rw [h1] at h
-    cases h2 : parse (setMemo E false) fN <;> rw [h2] at h <;> first | exact h.elim | exact hN h2
-
-/-- **Locality** (the lemma behind it, of independent interest): without Memoize, what an expression returns, where
-    it ends and which errors it appends depend only on the position and the innermost rule — not on the label
-    scopes, the stores, the farthest-failure record, the counters or the caller. -/
-theorem C06_evaluation_is_local_partial (E : Env) (own : Nat → Option String) (node : Nat → Option Expr)
-    (isPred : Nat → Bool) (hc : MemoCfg E) (hp : PureCode E isPred)
-    (hG : ∀ n r, E.findRule n = some r → r.expr.Ok own node isPred n)
-    (f : Nat) (e : Expr) (rn : String) (r : Rule) (he : e.Ok own node isPred rn) (hf : E.findRule rn = some r)
-    (t1 t2 : PState) (hpt : t1.pt = t2.pt) (hreach : Reach E.input t1.pt)
-    (h1 : t1.rstack.head? = some r) (h2 : t2.rstack.head? = some r)
-    (v : Val) (ok : Bool) (t1' : PState) (hr : parseExpr (setMemo E false) f e t1 = .done v ok t1')
-    (hne : parseExpr (setMemo E false) f e t2 ≠ .oof) :
-    ∃ t2' A, parseExpr (setMemo E false) f e t2 = .done v ok t2' ∧ t2'.pt = t1'.pt ∧
-      t1'.errs = t1.errs ++ A ∧ t2'.errs = t2.errs ++ A := by
-  have hl := loc hc hp hG t1.errs t2.errs f e t1 t2 rn r
-    (LRel_iff.mpr ⟨hpt, by rw [h1, h2], hreach, [], by simp, by simp⟩) he hf h1
-  rw [hr] at hl
-  rcases hl.cases with hl | ⟨v', ok', a, b, e1, e2, hrel, _, _⟩ | ⟨p, a, b, e1, _, _⟩
-  · exact absurd hl hne
-  · cases e1
-    obtain ⟨l1, _, _, A, hA1, hA2⟩ := LRel_iff.mp hrel
-    exact ⟨b, A, e2, l1.symm, hA1, hA2⟩
-  · cases e1
-
-/-! ### Memoize bounds the work -/
-
-/-- **C06 (e), partial: the packrat bound.** Standard template without left-recursion support, no budget, Memoize(true);
-    node identifiers unique, no throw/recover (`Expr.Ok`); the grammar has no same-position cycle: `rn` is a closed
-    nullability oracle and `rank` strictly decreases along every first-graph edge (`CountHyp`, the hypothesis of
-    `C07_no_same_position_cycle_terminates`). No assumption on the code blocks. Then a parse that returns has evaluated at
-    most (number of expression nodes) × (input length + 1) expressions: each (expression, offset) pair at most once.
-    (`ids` lists the node identifiers; the invariant behind it: the `.expr` keys of the memo table are pairwise
-    distinct and `ExprCnt` equals their number — `Proofs/MemoCount.lean`.) -/
-theorem C06_packrat_bound_partial (E : Env) (own : Nat → Option String) (node : Nat → Option Expr)
-    (rn : String → Bool) (rank : String → Nat) (h : CountHyp E own node rn rank)
-    (ids : List Nat) (hids : ∀ id e, node id = some e → id ∈ ids)
-    (f : Nat) (n : String) (r : Rule) (hfr : E.findRule n = some r) (v : Val) (ok : Bool) (s' : PState)
-    (hres : parseRuleWrap (setMemo E true) (parseExpr (setMemo E true) f) f r (startState (setMemo E true)) = .done v ok s') :
-    s'.exprCnt ≤ ids.length * (E.input.length + 1) :=
-  packrat_bound h ids hids f hfr v ok s' hres
-
-/-- the same read off `Parse` (with `Recover(false)`, so that a returned value is never a recovered panic) -/
-theorem C06_packrat_bound_parse_partial (E : Env) (own : Nat → Option String) (node : Nat → Option Expr)
-    (rn : String → Bool) (rank : String → Nat) (h : CountHyp E own node rn rank)
-    (ids : List Nat) (hids : ∀ id e, node id = some e → id ∈ ids) (hrec : E.opts.recover = false)
-    (f : Nat) (v : Val) (errs : List String) (s' : PState) (first : Rule) (rest : List Rule) (hr : E.rules = first :: rest)
-    (r : Rule) (hfr : E.findRule (entryName E first) = some r)
-    (hres : parse (setMemo E true) f = .ret v errs s') :
-    s'.exprCnt ≤ ids.length * (E.input.length + 1) := by
-  unfold parse at hres
-  simp only [] at hres
-  rw [show (setMemo E true).rules = E.rules from rfl, hr] at hres
-  simp only [] at hres
-  rw [show (setMemo E true).findRule (entryName (setMemo E true) first) = E.findRule (entryName E first) from rfl, hfr] at hres
-  simp only [] at hres
-  cases ho : parseRuleWrap (setMemo E true) (parseExpr (setMemo E true) f) f r (startState (setMemo E true)) with
-  | oof => rw [ho] at hres; simp [finish] at hres
-  | panic p s =>
-    rw [ho] at hres
-    simp only [finish, show (setMemo E true).opts.recover = E.opts.recover from rfl, hrec] at hres
-    simp at hres
-  | done v0 ok s0 =>
-    have hb := packrat_bound h ids hids f hfr v0 ok s0 ho
-    rw [ho] at hres
-    simp only [finish] at hres
-    split at hres
-    · split at hres
-      · cases hres; simpa [addErrAt] using hb
-      · cases hres; exact hb
-    · cases hres; exact hb
-
-/-! ### the hypotheses are satisfiable, and the theorem is not about a parser that never hits the table -/
-
-namespace ExampleC06
-
-def lit (id : Nat) (s : String) : Expr := .lit id (s.toList.map (·.toNat)) false ("\"" ++ s ++ "\"")
-
--- `R <- S "!" / S "?"` ; `S <- "a" S / "b" { return string(c.text), errIfAtOffset3 }`
-def e3 : Expr := .ruleRef 3 "S"
-def e4 : Expr := lit 4 "!"
-def e2 : Expr := .seq 2 [e3, e4]
-def e6 : Expr := .ruleRef 6 "S"
-def e7 : Expr := lit 7 "?"
-def e5 : Expr := .seq 5 [e6, e7]
-def e1 : Expr := .choice 1 1 6 [e2, e5]
-def e10 : Expr := lit 10 "a"
-def e11 : Expr := .ruleRef 11 "S"
-def e9 : Expr := .seq 9 [e10, e11]
-def e13 : Expr := lit 13 "b"
-def e12 : Expr := .action 12 1 e13
-def e8 : Expr := .choice 8 2 6 [e9, e12]
-
-def rules : List Rule :=
-  [ { name := "R", displayName := "", leader := false, leftRecursive := false, expr := e1 },
-    { name := "S", displayName := "", leader := false, leftRecursive := false, expr := e8 } ]
-
-def own (id : Nat) : Option String := if id = 0 then none else if id ≤ 7 then some "R" else if id ≤ 13 then some "S" else none
-def node : Nat → Option Expr
-  | 1 => some e1 | 2 => some e2 | 3 => some e3 | 4 => some e4 | 5 => some e5 | 6 => some e6 | 7 => some e7
-  | 8 => some e8 | 9 => some e9 | 10 => some e10 | 11 => some e11 | 12 => some e12 | 13 => some e13
-  | _ => none
-
-/-- the action returns the matched text and reports an error (so that the error clause is exercised) -/
-def env (memo : Bool) (inp : String) : Env :=
-  { flags := { optimize := false, globalState := false, leftRec := false, basicLatin := false },
-    opts := { memoize := memo }, rules := rules,
-    code := { args := fun _ => [], run := fun _ ctx => { ret := .bytes ctx.text, err := some "seen", state := ctx.state, global := ctx.global } },
-    toLower := id, input := inp.toList.map (·.toNat) }
-
-theorem cfg (inp : String) : MemoCfg (env false inp) := ⟨rfl, rfl, rfl⟩
-
-theorem pure (inp : String) : PureCode (env false inp) (fun _ => false) where
-  noargs := fun _ => rfl
-  act := fun _ c c' _ h => by simp [env, h]
-  pred := fun _ h => by cases h
-
-theorem wf (inp : String) : ∀ n r, (env false inp).findRule n = some r → r.expr.Ok own node (fun _ => false) n := by
-  intro n r h
-  simp only [Env.findRule, env, rules, List.reverse_cons, List.reverse_nil, List.nil_append, List.cons_append,
-    List.find?] at h
-  by_cases hS : "S" = n
-  · subst hS
-    simp at h
-    subst h
-    simp [e8, e9, e10, e11, e12, e13, lit, Expr.Ok, OkL, Keyed, own, node, Expr.id]
-  · by_cases hR : "R" = n
-    · subst hR
-      simp at h
-      subst h
-      simp [e1, e2, e3, e4, e5, e6, e7, lit, Expr.Ok, OkL, Keyed, own, node, Expr.id]
-    · simp [hS, hR] at h
-
-theorem wfT (inp : String) : ∀ n r, (env false inp).findRule n = some r → r.expr.Ok own node (fun _ => true) n := by
-  intro n r h
-  simp only [Env.findRule, env, rules, List.reverse_cons, List.reverse_nil, List.nil_append, List.cons_append,
-    List.find?] at h
-  by_cases hS : "S" = n
-  · subst hS
-    simp at h
-    subst h
-    simp [e8, e9, e10, e11, e12, e13, lit, Expr.Ok, OkL, Keyed, own, node, Expr.id]
-  · by_cases hR : "R" = n
-    · subst hR
-      simp at h
-      subst h
-      simp [e1, e2, e3, e4, e5, e6, e7, lit, Expr.Ok, OkL, Keyed, own, node, Expr.id]
-    · simp [hS, hR] at h
-
-def rank (n : String) : Nat := if n = "R" then 1 else 0
-
-/-- the example grammar has no same-position cycle: `R` can start with `S`, `S` with nothing -/
-theorem countHyp (inp : String) : CountHyp (env false inp) own node (fun _ => false) rank where
-  cfg := cfg inp
-  ok := wfT inp
-  closed := by
-    intro n r h hn
-    simp only [Env.findRule, env, rules, List.reverse_cons, List.reverse_nil, List.nil_append, List.cons_append,
-      List.find?] at h
-    by_cases hS : "S" = n
-    · subst hS; simp at h; subst h
-      simp [e8, e9, e10, e11, e12, e13, lit, Expr.nul, nulAny, nulAll] at hn
-    · by_cases hR : "R" = n
-      · subst hR; simp at h; subst h
-        simp [e1, e2, e3, e4, e5, e6, e7, lit, Expr.nul, nulAny, nulAll] at hn
-      · simp [hS, hR] at h
-  ranked := by
-    intro n r h m hm
-    simp only [Env.findRule, env, rules, List.reverse_cons, List.reverse_nil, List.nil_append, List.cons_append,
-      List.find?] at h
-    by_cases hS : "S" = n
-    · subst hS; simp at h; subst h
-      simp [e8, e9, e10, e11, e12, e13, lit, Expr.first, firstAny, firstSeq, Expr.nul] at hm
-    · by_cases hR : "R" = n
-      · subst hR; simp at h; subst h
-        simp [e1, e2, e3, e4, e5, e6, e7, lit, Expr.first, firstAny, firstSeq, Expr.nul] at hm
-        subst hm; simp [rank]
-      · simp [hS, hR] at h
-
-/-- `setMemo (env false inp) m` is `env m inp` -/
-theorem setMemo_env (m : Bool) (inp : String) : setMemo (env false inp) m = env m inp := rfl
-
-def cntOf : Final → Option (Nat × List String)
-  | .ret _ errs s => some (s.exprCnt, errs)
-  | _ => none
-
-/-- on `aab?` the memoized parser answers from the table (the second alternative finds `S` at offset 0 there:
-    20 expressions evaluated instead of 33), and the action's error is reported once by both … -/
-theorem memo_is_used :
-    cntOf (parse (env true "aab?") 40) = some (20, ["1:3 (2): rule S: seen"]) ∧
-    cntOf (parse (env false "aab?") 40) = some (33, ["1:3 (2): rule S: seen"]) := by decide
-
-/-- … and the theorem applies to it: both parsers return the text of `b` and the error of the action once -/
-example (v1 v2 : Val) (errs1 errs2 : List String) (s1 s2 : PState)
-    (h1 : parse (env true "aab?") 40 = .ret v1 errs1 s1) (h2 : parse (env false "aab?") 40 = .ret v2 errs2 s2) :
-    v1 = v2 :=
-  (C06_memoize_same_result_any_depth_partial (env false "aab?") own node (fun _ => false) (cfg _) (pure _) (wf _) 40 40
-    v1 v2 errs1 errs2 s1 s2 h1 h2).1
-
-theorem ids_cover : ∀ id e, node id = some e → id ∈ [1, 2, 3, 4, 5, 6, 7, 8, 9, 10, 11, 12, 13] := by
-  intro id e h
-  unfold node at h
-  split at h <;> first | (cases h; done) | simp
-
-/-- the bound applies to the example: at most 13 × (4 + 1) = 65 evaluations on `aab?` (it takes 20, `memo_is_used`) -/
-example (f : Nat) (r : Rule) (hfr : (env false "aab?").findRule "R" = some r) (v : Val) (ok : Bool) (s' : PState)
-    (hres : parseRuleWrap (setMemo (env false "aab?") true) (parseExpr (setMemo (env false "aab?") true) f) f r
-      (startState (setMemo (env false "aab?") true)) = .done v ok s') : s'.exprCnt ≤ 13 * (4 + 1) :=
-  C06_packrat_bound_partial _ own node (fun _ => false) rank (countHyp _) _ ids_cover f "R" r hfr v ok s' hres
-
-end ExampleC06
-
-/-! ### kernel-evaluated witness of finding D7 (the model reproduces the code) -/
-
-namespace WitnessC06
-
-def lit (id : Nat) (s : String) : Expr := .lit id (s.toList.map (·.toNat)) false ("\"" ++ s ++ "\"")
-
-/-- `R <- S "!" / "a" S` ; `S <- x:"a"* l:"b" { return l, nil }` -/
-def rulesD7 : List Rule :=
-  [ { name := "R", displayName := "", leader := false, leftRecursive := false,
-      expr := .choice 1 1 6 [.seq 2 [.ruleRef 3 "S", lit 4 "!"], .seq 5 [lit 6 "a", .ruleRef 7 "S"]] },
-    { name := "S", displayName := "", leader := false, leftRecursive := false,
-      expr := .action 8 1 (.seq 9 [.labeled 10 "x" (.zeroOrMore 11 (lit 12 "a")), .labeled 13 "l" (lit 14 "b")]) } ]
-
-def envD7 (memo : Bool) : Env :=
-  { flags := { optimize := false, globalState := false, leftRec := false, basicLatin := false },
-    opts := { memoize := memo }, rules := rulesD7,
-    code := { args := fun _ => ["l"], run := fun _ ctx => { ret := ctx.args.headD .nil, state := ctx.state, global := ctx.global } },
-    toLower := id, input := "aab".toList.map (·.toNat) }
-
-/-- the second element of the result sequence of an error-free parse: `some (some b)` = the bytes `b`,
-    `some none` = nil; `none` = anything else -/
-def second : Final → Option (Option (List Nat))
-  | .ret (.list [_, .bytes b]) [] _ => some (some b)
-  | .ret (.list [_, .nil]) [] _ => some none
-  | _ => none
-
-/-- **Finding D7 on the model**: on `aab` the second alternative returns `["a", "b"]`; with
-    `Memoize(true)` the labelled expression `l:"b"` at offset 2 is answered from the memo table (it was
-    evaluated there by the first alternative), the label is not bound, and the action returns nil. -/
-theorem C06_D7_memo_hit_skips_label_binding :
-    second (parse (envD7 false) 40) = some (some [98]) ∧ second (parse (envD7 true) 40) = some none := by
-  decide
-
-/-- `S <- A B "x" / A &{ c.pos.offset == 0 } B "y"` ; `A <- "a" {..}` ; `B <- "b" {..}` -/
-def rulesD27 : List Rule :=
-  [ { name := "S", displayName := "", leader := false, leftRecursive := false,
-      expr := .choice 1 1 6 [.seq 2 [.ruleRef 3 "A", .ruleRef 4 "B", lit 5 "x"],
-                             .seq 6 [.ruleRef 7 "A", .andCode 8 3, .ruleRef 9 "B", lit 10 "y"]] },
-    { name := "A", displayName := "", leader := false, leftRecursive := false, expr := .action 11 1 (lit 12 "a") },
-    { name := "B", displayName := "", leader := false, leftRecursive := false, expr := .action 13 2 (lit 14 "b") } ]
-
-def envD27 (memo : Bool) : Env :=
-  { flags := { optimize := false, globalState := false, leftRec := false, basicLatin := false },
-    opts := { memoize := memo }, rules := rulesD27,
-    code := { args := fun _ => [],
-              run := fun blk ctx =>
-                if blk = 3 then { retB := decide (ctx.pos.off = 0), state := ctx.state, global := ctx.global }
-                else { ret := .bytes ctx.text, state := ctx.state, global := ctx.global } },
-    toLower := id, input := "aby".toList.map (·.toNat) }
-
-def succeeded : Final → Option Bool
-  | .ret _ errs _ => some errs.isEmpty
-  | _ => none
-
-/-- **Finding D27 on the model**: no labels, no state, every block a function of `c.pos` / `c.text` only — and
-    Memoize still changes the result. The predicate sees the pos of the most recently executed action (D2): without
-    Memoize that is `A`'s action (offset 0), re-run by the second alternative; with Memoize `A` is a memo hit, the
-    most recent action is `B`'s from the abandoned first alternative (offset 1), the predicate fails. This is why
-    `C06_memoize_same_result_partial` asks predicate blocks not to look at pos / text (`PureCode.pred`). -/
-theorem C06_D27_memo_hit_changes_stale_pos :
-    succeeded (parse (envD27 false) 40) = some true ∧ succeeded (parse (envD27 true) 40) = some false := by
-  decide
-
-end WitnessC06
+    (hnolr : ∀ n r, E.findRule n = some r → r.leftRecursive = false ∧ r.leader = false)
+    (fM fN : Nat) (hle : fN ≤ fM) (v : Val) (errs : List String)
+    (hspec : Spec.run (setMemo E false) fN = .ret v errs) :
+    ∃ errs1 s1, parse (setMemo E true) fM = .ret v errs1 s1 ∧
+      (errs1 = errs ∨ ∃ m1 m2, errs1 = [m1] ∧ errs = [m2] ∧ v = .nil) := by
+  have hplain : Plain (setMemo E false) := ⟨rfl, hc.nobudget, fun n r h => hnolr n r h⟩
+  have hcon := C11_parse_contract (setMemo E false) hplain fN
+  rw [hspec] at hcon
+  cases hp2 : parse (setMemo E false) fN with
+  | oof => rw [hp2] at hcon; cases hcon
+  | panic p s => rw [hp2] at hcon; cases hcon
+  | ret v2 errs2 s2 =>
+    rw [hp2] at hcon
+    simp only [Final.view, Spec.Final.ret.injEq] at hcon
+    obtain ⟨rfl, rfl⟩ := hcon
+    exact C06_memoize_same_result_partial E own node isPred hc hp hG fM fN hle v2 errs2 s2 hp2
 
 end RT
 end PV
